@@ -185,6 +185,47 @@ VlogScope(q) ==
        max |-> [N |-> 1, L |-> 1, D |-> 3, P |-> 6, C |-> 10, I |-> 6, Q |-> 8, W |-> 14],
        names |-> {"x", "y"}, vals |-> {}, pos |-> {NoPos}, createN |-> {0},
        parents |-> {2, 3}, maxKids |-> 3, queries |-> q, walk |-> FALSE]
+(* EBLIF scopes: a flat design following spydrnet's EBLIF conventions (primitives in hdi_primitives) *)
+EblifInit == << Cnew("N", "top"), Ccreate("NL", 1, "hdi_primitives", 0), Ccreate("NL", 1, "work", 0),
+                Ccreate("LD", 1, "LEAF", 0), Ccreate("LD", 1, "AND2", 0), Ccreate("LD", 2, "top", 0),
+                Ccreate("LD", 1, "generic-latch", 0),
+                Ccreate("DP", 1, "I", 1), Ccreate("DP", 1, "O", 1), Ccreate("DC", 1, "I", 1), Ccreate("DC", 1, "O", 1),
+                Ccreate("DP", 2, "A", 2), Ccreate("DP", 2, "Y", 1), Ccreate("DC", 2, "A", 2), Ccreate("DC", 2, "Y", 1),
+                Ccreate("DP", 3, "clk", 1), Ccreate("DP", 3, "d", 2), Ccreate("DP", 3, "q", 1),
+                Ccreate("DC", 3, "clk", 1), Ccreate("DC", 3, "d", 2), Ccreate("DC", 3, "q", 1),
+                Ccreate("DC", 3, "n1", 1), Ccreate("DC", 3, "b", 2),
+                [op |-> "set_dir", x |-> 1, ival |-> 2], [op |-> "set_dir", x |-> 2, ival |-> 3],
+                [op |-> "set_dir", x |-> 3, ival |-> 2], [op |-> "set_dir", x |-> 4, ival |-> 3],
+                [op |-> "set_dir", x |-> 5, ival |-> 2], [op |-> "set_dir", x |-> 6, ival |-> 2],
+                [op |-> "set_dir", x |-> 7, ival |-> 3],
+                Cconnect(1, IPin(1)), Cconnect(2, IPin(2)), Cconnect(3, IPin(3)), Cconnect(4, IPin(4)), Cconnect(5, IPin(5)),
+                Cconnect(6, IPin(6)), Cconnect(7, IPin(7)), Cconnect(8, IPin(8)), Cconnect(9, IPin(9)),
+                Csettopdef(1, 3), [op |-> "set_name", kind |-> "I", x |-> 1, val |-> "top"] >>
+EblifLatchInit == EblifInit \o <<
+                \* the latch primitive as the reader represents it (ports 8..12, pins 10..14), the nets "re" and "0"
+                \* (cables 10, 11; wires 13, 14) and one latch instance "lq" with type, control and init-val tied
+                Ccreate("DP", 4, "type", 1), Ccreate("DP", 4, "control", 1), Ccreate("DP", 4, "init-val", 1),
+                Ccreate("DP", 4, "input", 1), Ccreate("DP", 4, "output", 1),
+                [op |-> "set_dir", x |-> 8, ival |-> 2], [op |-> "set_dir", x |-> 9, ival |-> 2],
+                [op |-> "set_dir", x |-> 10, ival |-> 2], [op |-> "set_dir", x |-> 11, ival |-> 2],
+                [op |-> "set_dir", x |-> 12, ival |-> 3],
+                Ccreate("DC", 3, "re", 1), Ccreate("DC", 3, "0", 1),
+                Cchild(3, "lq", 4),
+                Cconnect(13, OPin(2, 10)), Cconnect(6, OPin(2, 11)), Cconnect(14, OPin(2, 12)),
+                [op |-> "set_item", kind |-> "I", x |-> 2, key |-> "k", val |-> "l"], Cchild(3, "u", 1) >>
+EblifOpts == [comments : BOOLEAN, continuation : BOOLEAN, order : {"asis", "reversed"}, declare : {"all", "none"},
+              unconn : {"omit", "unconn"}, conn : {"none", "before", "after", "after2"}]
+EblifCands(s, which) ==
+    (IF "eblif_read" \in which THEN {[op |-> "eblif_read", n |-> 1, opts |-> o] : o \in RandomSubset(12, EblifOpts)} ELSE {})
+    \cup (IF "eblif_rt" \in which
+          THEN {[op |-> "seq", calls |-> <<[op |-> "eblif_read", n |-> 1, opts |-> o], [op |-> "eblif_rt", n |-> 2]>>] :
+                   o \in RandomSubset(4, {oo \in EblifOpts : oo.declare = "all"})}
+          ELSE {})
+EblifScope(q) ==
+      [init |-> EblifInit, ops |-> {"b:child", "b:connect", "set_k:I", "props:I"},
+       max |-> [N |-> 1, L |-> 2, D |-> 4, P |-> 12, C |-> 11, I |-> 5, Q |-> 14, W |-> 14],
+       names |-> {"u", "v", "w"}, vals |-> {}, pos |-> {NoPos}, createN |-> {0},
+       parents |-> {3}, maxKids |-> 4, queries |-> q, walk |-> FALSE]
 EdifOpts == [rename : BOOLEAN, case : {"same", "upper"}, bitorder : {"asc", "desc", "mixed"},
              comments : BOOLEAN, skip_empty : BOOLEAN]
 FmtCands(s, which) ==
@@ -266,7 +307,11 @@ QScope == [init |-> QInit, ops |-> {}, max |-> MaxAll(0), names |-> {}, vals |->
            createN |-> {0}, queries |-> {"C13"}, walk |-> FALSE, sample |-> 3000]
 
 ScopeTable ==
-  [ vlog_read |-> VlogScope({"vlog_read"}),
+  [ eblif_read |-> EblifScope({"eblif_read"}),
+    eblif_rt |-> EblifScope({"eblif_rt"}),
+    eblif_latch |-> [EblifScope({"eblif_read"}) EXCEPT !.init = EblifLatchInit, !.ops = {"b:connect"}],
+    eblif_latch_rt |-> [EblifScope({"eblif_rt"}) EXCEPT !.init = EblifLatchInit, !.ops = {"b:connect"}],
+    vlog_read |-> VlogScope({"vlog_read"}),
     vlog_rt |-> VlogScope({"vlog_rt"}),
     edif_names |-> [init |-> NameInit, ops |-> {}, max |-> MaxAll(0), names |-> {}, vals |-> {}, pos |-> {NoPos},
                     createN |-> {0}, queries |-> {"C17"}, walk |-> FALSE],
@@ -361,6 +406,7 @@ QCands(s) ==
     \cup FmtCands(s, Queries)
     \cup (IF "C17" \in Queries THEN NameCands(s) ELSE {})
     \cup VlogCands(s, Queries)
+    \cup EblifCands(s, Queries)
     \cup (IF "C13" \in Queries THEN RandomSubset(Scope.sample * (MaxDepth + 1), QueryProduct(s)) \cup DirectProduct(s) ELSE {})
     \cup (IF "xf2" \in Queries
           THEN StepCands(s) \cup {[op |-> "uniquify", n |-> n] : n \in IdsN(s)}
